@@ -63,3 +63,12 @@ def amen_frame(ob, which, d, guess):
             all_eq(ob, 'M', fl['M'], A.M_)
             all_eq(ob, 'N', fl['N'], B.N_)
     ob.frame()
+
+
+def _interfaces(ob, which, d, k):
+    from . import c12 as _c12
+    _c12.interfaces(ob, which, d, k)
+
+
+scenario('C11', 'interfaces', ['torchtt._amen._compute_phi_fwd_AB', 'torchtt._amen._compute_phi_bck_AB', 'torchtt._amen._compute_phi_fwd_x', 'torchtt._amen._compute_phi_bck_x', 'torchtt._amen._local_AB'],
+         quick=[dict(which='mm', d=d, k=k) for d in (1, 2, 3) for k in range(d)], replay=None, max_paths=50)(_interfaces)
